@@ -41,6 +41,16 @@ def catalogue():
     # pipestance and one outside of it
     FSOT = struct("FSO", "file f, file o")
     P.append(one("po_struct_outside", [FSOT], "FSO s, file g", {"s": FSO, "g": FILE}))
+    # mapped top-level calls: the invocation is `map call TOP(x = split ...)`; the files of every
+    # fork go below outs/<index> or outs/<key>
+    for nm, mode, xs in (("po_top_mapped_arr", "array", [1, 2, 3]), ("po_top_mapped_map", "map", {"a": 1, "b c": 2, "10": 3}),
+                         ("po_top_mapped_one", "array", [7]), ("po_top_mapped_11", "array", list(range(11))),
+                         ("po_top_mapped_oddkeys", "map", {"..": 1, "c/d": 2, "ok": 3, ".": 4})):
+        st = stage("P", "int x", "file f, txt t, file[] fs, FS s, int n", {"f": FILE, "t": FILE, "fs": FILES, "s": FSTRUCT, "n": const(1)})
+        P.append(program(nm, [FS], [st],
+                         [pipeline("TOP", "int x", "file f, txt t, file[] fs, FS s, int n", [call("P", binds={"x": self_("x")})],
+                                   {n_: ref("P", n_) for n_ in ("f", "t", "fs", "s", "n")})],
+                         "TOP", {"x": xs}, filetypes=FT, top_mode=mode, top_split=("x",)))
     # files named by invocation arguments with paths relative to mrp's working directory, passed
     # through to the outputs (they lie outside the pipestance)
     q = program("po_relinput", [], [stage("P", "int x", "int n", {"n": const(1)})],
